@@ -158,6 +158,7 @@ class Gen(object):
         self.meta = {}      # name -> dict(type=..., ...)
         self.n = 0
         self.alias_hot = []
+        self.shared_zones = []
 
     def new_id(self):
         self.n += 1
@@ -356,8 +357,11 @@ class Gen(object):
             return self.op("tp.cmp", [a, b], client=client)
         if r < 0.84:
             z = self.pick("tz")
+            if self.shared_zones and rng.random() < 0.5:
+                z = rng.choice(self.shared_zones)   # an object already shared
             if z is None:
                 return self.seed()
+            self.shared_zones.append(z)
             sid = self.op("tp.to_time_zone", [a, z], result="tp",
                           client=client, **self.tp_meta(a, safe=False))
             self.alias_hot = [sid, a, z]
@@ -616,6 +620,64 @@ def all_seed_steps():
         out.append(({"k": "mk", "t": "rec", "text": text},
                     {"type": "rec", "bounded": bounded}))
     return out
+
+
+def gen_scenario(index):
+    """Hand-written multi-step situations in which two values come to share
+    a sub-object through public operations alone, followed by operations
+    that would write through it: points converted to one common TimeZone
+    object (to_time_zone stores the caller's object), a 24:00 point among
+    them, then comparisons / subtraction / sorting / recurrence queries."""
+    steps = []
+    n = [0]
+
+    def add(step):
+        n[0] += 1
+        step = dict(step, id="d%d" % n[0])
+        steps.append(step)
+        return step["id"]
+
+    def op(name, a, s=()):
+        return add({"k": "op", "m": name, "a": list(a), "s": list(s), "c": 0})
+
+    zone_txt = ["Z", "+05:30", "-11:00"][index % 3]
+    ref = add({"k": "mk", "t": "tp", "parser": "std",
+               "text": "2001-01-01T00:00:00" + zone_txt})
+    p24 = add({"k": "mk", "t": "tp", "parser": "std",
+               "text": "2000-12-31T24:00:00" + zone_txt})
+    q = add({"k": "mk", "t": "tp", "parser": "std",
+             "text": "2000-06-15T12:30:00" + zone_txt})
+    o24 = add({"k": "mk", "t": "tp", "parser": "std",
+               "text": "2000-366T24:00:00" + zone_txt})
+    d1 = add({"k": "mk", "t": "dur", "text": "PT6H"})
+    zr = op("tp.time_zone", [ref])          # the zone object ref carries
+    shared = [op("tp.to_time_zone", [x, zr]) for x in (p24, q, o24, ref)]
+    for a in shared + [ref]:
+        for b in shared + [ref]:
+            if a != b:
+                op("tp.cmp", [a, b])
+                op("tp.sub_tp", [a, b])
+    rec = op("rec.make", [shared[0], d1], ["start_dur", 4])
+    op("rec.take", [rec], [4])
+    for probe in shared + [ref]:
+        op("rec.get_is_valid", [rec, probe])
+        op("rec.get_first_after", [rec, probe])
+        op("rec.contains", [rec, probe])
+    rec2 = op("rec.make", [ref, d1, shared[0], shared[1]],
+              ["start_dur_minmax", 3])
+    op("rec.take", [rec2], [3])
+    # a second generation: zones handed on from results to further points
+    z2 = op("tp.time_zone", [shared[0]])
+    more = [op("tp.to_time_zone", [x, z2]) for x in (p24, o24)]
+    for a in more:
+        for b in shared:
+            op("tp.cmp", [a, b])
+            op("tp.cmp", [b, a])
+    for x in shared + more + [ref, p24, o24]:
+        op("tp.hash_str", [x])
+    return {"property": PROP, "kind": "scenario", "index": index,
+            "mode": model.SPELLINGS[index % len(model.SPELLINGS)],
+            "zone": [0, 0, 0], "sample_salt": index, "steps": steps}
 
 
 def gen_directed(rng, index):
@@ -1280,6 +1342,8 @@ def make_trace(job):
     rng = kernel.run_rng(PROP, seed, index, kind)
     if kind == "directed":
         return gen_directed(rng, index)
+    if kind == "scenario":
+        return gen_scenario(index)
     return gen_random(rng, index)
 
 
@@ -1332,7 +1396,9 @@ def jobs_for(tier, seed):
     n_seeds = len(all_seed_steps())
     n_dir = n_seeds if tier == "quick" else n_seeds * 7
     n = 2000 if tier == "quick" else 60000
-    return [("directed", seed, i) for i in range(n_dir)] + [
+    return [("scenario", seed, i) for i in range(
+        6 if tier == "quick" else 21)] + [
+        ("directed", seed, i) for i in range(n_dir)] + [
         ("random", seed, i) for i in range(n)]
 
 
